@@ -30,6 +30,15 @@ try:
         res["demo_clean_exit"] = rc0
     ap = subprocess.run(["git", "-C", wt, "apply", patch], capture_output=True, text=True)
     if ap.returncode != 0:
+        # /repo has moved on (fix: commits) since the sub-agent's worktree was cut: port the change with a 3-way apply
+        ap = subprocess.run(["git", "-C", wt, "apply", "--3way", patch], capture_output=True, text=True)
+        if ap.returncode == 0:
+            subprocess.run(["git", "-C", wt, "reset", "-q"], capture_output=True)
+            ported = subprocess.run(["git", "-C", wt, "diff"], capture_output=True, text=True).stdout
+            patch = "/tmp/mutv/%s.ported.diff" % name
+            open(patch, "w").write(ported)
+            res["ported"] = True
+    if ap.returncode != 0:
         res["error"] = "patch does not apply to HEAD: " + ap.stderr[-300:]
         print(json.dumps(res, indent=1)); sys.exit(3)
     if not skip:
